@@ -3,24 +3,26 @@
 # /verif/seeded/<PROP>-<n>/, confirm it (verify_seed.sh), run the registered check(s) against it on /repo and undo.
 set -u
 p=$1; shift
-src=/tmp/seedout/$p
+src=${SEED_SRC:-/tmp/seedout/$p}
 n=1; while [ -e /verif/seeded/$p-$n ]; do n=$((n+1)); done
 dst=/verif/seeded/$p-$n
 mkdir -p $dst
 cp $src/patch.diff $dst/; cp -r $src/demo $dst/; cp $src/README.md $dst/ 2>/dev/null
 conf=$(/verif/tools/verify_seed.sh $dst 2>&1 | tail -4)
 echo "$conf"
-if [ -n "$(git -C /repo status --porcelain)" ]; then echo "REPO NOT CLEAN - not applying"; exit 2; fi
-git -C /repo apply $dst/patch.diff || { echo "patch does not apply to /repo"; exit 2; }
+# the checks run against a scratch copy of /repo's working tree with the change applied (GVC_REPO), so nothing else that
+# reads /repo at the same time is disturbed; equivalent to: git -C /repo apply <patch>; gvc check <ID>; git -C /repo checkout -- .
+tmp=$(mktemp -d /tmp/gvc-seedimp-XXXXXX)
+rsync -a --exclude .git /repo/ $tmp/
+(cd $tmp && patch -p1 -s < $dst/patch.diff) || { echo "patch does not apply"; rm -rf $tmp; exit 2; }
 caught=""
 for q in $p "$@"; do
-  out=$(GVC_EVIDENCE_DIR=/tmp/seed-ev GVC_REPLAY_DIR=/tmp/seed-rp /verif/bin/gvc check $q --tier quick 2>&1)
-  v=$(echo "$out" | grep "^VIOLATION" | sed 's|replay=/tmp/seed-rp/||' | head -4)
+  out=$(GVC_REPO=$tmp GVC_EVIDENCE_DIR=$tmp/.ev GVC_REPLAY_DIR=$tmp/.rp /verif/bin/gvc check $q --tier quick 2>&1)
+  v=$(echo "$out" | grep "^VIOLATION" | sed "s|replay=$tmp/.rp/||" | head -4)
   echo "== check $q: $(echo "$out" | grep '^property' )"; echo "$v"
   [ -n "$v" ] && caught="$caught $q:$(echo "$v" | head -1 | awk '{print $3}' | sed 's|.*/||; s|\.json||')"
 done
-git -C /repo checkout -- .
-rm -rf /tmp/seed-ev /tmp/seed-rp
+rm -rf $tmp
 python3 - "$dst" "$p" "$caught" "$conf" <<'EOF'
 import json, sys
 dst, p, caught, conf = sys.argv[1:5]
